@@ -1,2 +1,6 @@
 #!/bin/sh
-exit 0
+# Build the static Coq development (substrate, models, proofs, property files) from files on disk.
+set -e
+cd "$(dirname "$0")/coq"
+coq_makefile -f _CoqProject -o Makefile >/dev/null
+timeout 3000 make -j16
